@@ -20,7 +20,7 @@ def tlc_enum(ctx, mod, spec, cfg_text, consts=None, env=None):
     m = re.search(r'(\d+) states generated, (\d+) distinct states found', out)
     ctx.cov['transitions'] += int(m.group(1))
     ctx.cov['states'] += int(m.group(2))
-    rows = [json.loads(json.loads(l.split('js = ', 1)[1])) for l in open(os.path.join(d, 'dump.dump')) if 'js = ' in l]
+    rows = [json.loads(json.loads(l.split('js = ', 1)[1])) for l in open(os.path.join(d, 'dump.dump')) if 'js = "{' in l]
     shutil.rmtree(d, ignore_errors=True)
     return rows
 
@@ -381,6 +381,43 @@ def concurrency(ctx, prop, mod):
         import sys
         sys.stderr.write(reports[0][:3000])
         mod.die('data race in harness code only (machinery problem, not a verdict)')
+    # below the request: every schedule of two in-flight requests at backend-call granularity (spec/Schedules.tla),
+    # replayed deterministically (the store's gate serialises the two requests as the schedule says)
+    maxcalls = 4 if ctx.tier == 'quick' else 6
+    cfgt = 'SPECIFICATION Spec\nCONSTANTS\n  MaxCalls = %d\n  SharedScratch = %s\nINVARIANT Independent\nCHECK_DEADLOCK FALSE\n'
+    rows = tlc_enum(ctx, mod, 'Schedules', cfgt % (maxcalls, 'FALSE'))
+    # anti-vacuity: with a cell shared between two calls TLC must find a schedule that breaks Independent
+    d = os.path.join(ctx.tmp, 'sched-neg')
+    os.makedirs(d, exist_ok=True)
+    shutil.copy(os.path.join(mod.VERIF, 'spec', 'Schedules.tla'), d)
+    open(os.path.join(d, 'run.cfg'), 'w').write(cfgt % (3, 'TRUE'))
+    outn = mod.run(['tlc', '-workers', '4', '-metadir', os.path.join(d, 'meta'), '-config', 'run.cfg', 'Schedules.tla'], 600, cwd=d, ok=(0, 12, 13))
+    if 'Invariant Independent is violated' not in outn:
+        mod.die('Schedules.tla: the negative control (shared scratch cell) did not violate Independent: the invariant is vacuous')
+    shutil.rmtree(d, ignore_errors=True)
+    rf = os.path.join(ctx.tmp, 'schedules.ndjson')
+    with open(rf, 'w') as f:
+        for row in rows:
+            f.write(json.dumps(row) + '\n')
+    sres = os.path.join(ctx.tmp, 'sched.json')
+    scmd = [ctx.bin, 'sched', '-rows', rf, '-out', sres, '-seed', str(ctx.seed), '-offsets', '2' if ctx.tier == 'quick' else '6']
+    mod.run(scmd, 3000, env=env, ok=(0, 66))
+    sr = json.load(open(sres))
+    ctx.cov.update(schedules_enumerated=len(rows), schedule_max_calls=maxcalls, request_pairs_scheduled=sr['pairs'],
+                   scheduled_executions=sr['executions'], requests_longer_than_bound=sr['clamped'])
+    ctx.cov['traces_validated_against_impl'] += sr['executions']
+    if sr['diffs']:
+        mod.run(scmd, 3000, env=env, ok=(0, 66))      # deterministic: must recur
+        sr2 = json.load(open(sres))
+        if sr2['diffs']:
+            violation(ctx, prop, 'crosstalk:schedule', dict(diff=sr['diffs'][0], replay_cmd=' '.join(scmd[1:])))
+            return
+        print('check: schedule difference did not recur; not a verdict', file=__import__('sys').stderr)
+    reports = [open(f).read() for f in g.glob(logp + '.*')]
+    lib = [x for x in reports if '/repo/' in x or (os.environ.get('VERIF_REPO') and os.environ['VERIF_REPO'] in x)]
+    if lib:
+        violation(ctx, prop, 'race:library', dict(report=lib[0][:6000], replay_cmd=' '.join(scmd[1:])))
+        return
     if r['diffs']:
         # re-run for determinism of the verdict: a transcript difference must show up again
         mod.run([ctx.bin, 'conc', '-rounds', str(rounds), '-clients', str(clients), '-depth', str(steps), '-seed', str(ctx.seed), '-out', res],
